@@ -1670,10 +1670,18 @@ class unit_axes:
     def __enter__(self):
         self.added = self.names - UNIT_AXES
         UNIT_AXES.update(self.added)
+        # extents derived from the declared axes (|S| // |B|, |B| * |x|, ...) were computed for the general configuration
+        import re as _re
+        self.saved = dict(AXIS_EXTENT)
+        for k in list(AXIS_EXTENT):
+            if set(_re.findall(r"[A-Za-z_][A-Za-z_0-9]*", k)) & self.names:
+                del AXIS_EXTENT[k]
         return self
 
     def __exit__(self, *exc):
         UNIT_AXES.difference_update(self.added)
+        AXIS_EXTENT.clear()
+        AXIS_EXTENT.update(self.saved)
         return False
 
 
